@@ -108,6 +108,15 @@ Theorem delete_cascade_exact : forall sch oc fuel st evs s0 x st' evs',
 Proof. exact delete_cascade_exact_wf. Qed.
 Print Assumptions delete_cascade_exact.
 
+(* "Enough fuel": the fuel only bounds the depth of the cascade recursion; a result other than
+   EOutOfFuel is the same for every larger fuel (so delete_cascade_exact and delete_restrict speak about
+   THE result of the delete, not about an artefact of the bound). *)
+Theorem delete_fuel_monotone : forall sch oc n m stev s x,
+  delete_by_id sch oc n stev s x <> Err EOutOfFuel ->
+  delete_by_id sch oc (n + m) stev s x = delete_by_id sch oc n stev s x.
+Proof. exact delete_fuel_monotone_lemma. Qed.
+Print Assumptions delete_fuel_monotone.
+
 (* The cascade look-up is field equality on the stored bytes: the id is data, never filter syntax
    (this replaces the string-level statement cascade_filter_denotes_id of the design: the repaired code
    builds no filter text). *)
